@@ -10,7 +10,7 @@ Operation form (JSON; the Lean model `PyGqlModel/AsyncExec.lean` reads the same)
   case may carry "serve": "methods" — fields have NO explicit resolver: the library `default_resolver` serves them from
            METHODS of the root value / of the parent objects (`def f(self, ctx, info, **args)`, `async def` under asyncio,
            methods returning `info.runtime.submit(...)`); same model, same oracles.
-  case may carry "style": "plain" | "inline" | "spread" (how the top-level selection is written:
+  case may carry "style": "plain" | "inline" | "spread" | "reselect-inline" | "reselect-spread" | "reselect-nested" (how the top-level selection is written:
            directly, inside `... on <Root> { }`, or through one fragment spread) — not part of the model.
   field  = {"key": str, "mode": "sync" | "deferred" | "nested" | "ready", "ty": ty, "out": fo}
            ("ready": the pool runs the task at submission, the executor receives an ALREADY FINISHED future)
@@ -229,7 +229,7 @@ def gen_case(rng, kind=None, n_top=None, depth=2, **over):
     fdefs = [gen_fdef(rng, depth, p, k) for k in keys]
     fields = [dict(f, out=gen_fo(rng, f["ty"], p)) for f in fdefs]
     case = {"kind": kind, "fields": fields}
-    style = rng.choice(("plain", "plain", "inline", "spread"))
+    style = rng.choice(("plain", "plain", "inline", "spread", "reselect-inline", "reselect-spread", "reselect-nested"))
     if style != "plain":
         case["style"] = style
     if rng.random() < p.get("p_methods", 0.3):
@@ -378,6 +378,17 @@ def document(case):
     op = "mutation" if case["kind"] == "mutation" else "query"
     root = "Mutation" if case["kind"] == "mutation" else "Query"
     style = case.get("style", "plain")
+    if style.startswith("reselect"):
+        # the root selection RE-SELECTS an earlier response key after other fields (inside a fragment): execution and
+        # response order is the order of FIRST appearance
+        parts = [f["key"] + _ty_doc(f["ty"], (f["key"],)) for f in case["fields"]]
+        head, rest = parts[:2], parts[2:]
+        again = " ".join([parts[0]] + rest + ([parts[1]] if len(parts) > 1 else []))
+        if style == "reselect-inline":
+            return "%s { %s ... on %s { %s } }" % (op, " ".join(head), root, again)
+        if style == "reselect-nested":
+            return "%s { %s ... on %s { ... on %s { %s } %s } }" % (op, " ".join(head), root, root, parts[0], again)
+        return "%s { %s ...Again } fragment Again on %s { %s }" % (op, " ".join(head), root, again)
     if style == "inline":
         return "%s { ... on %s { %s } }" % (op, root, body)
     if style == "spread":
@@ -620,7 +631,7 @@ class MethodObj:
 
 
 class _Entry:
-    __slots__ = ("fn", "args", "kwargs", "fut", "path", "stage")
+    __slots__ = ("fn", "args", "kwargs", "fut", "path", "stage", "started")
 
 
 class ManualExecutor:
@@ -719,10 +730,11 @@ class ThreadPoolWorld(World):
 class AsyncWorld(World):
     config = "asyncio"
 
-    def __init__(self, case, loop, coro_keys=()):
+    def __init__(self, case, loop, all_gated=False):
         super().__init__(case)
         self.loop = loop
-        self.coro_keys = coro_keys
+        self.all_gated = all_gated
+        self.stuck = None
 
     def resolve(self, info, explicit):
         path = tuple(info.path)
@@ -740,21 +752,34 @@ class AsyncWorld(World):
                 fut.set_exception(err)
             return fut
         e = _Entry()
-        e.fut = self.loop.create_future()
-        e.path, e.stage = path, (1 if f["mode"] == "nested" else 2)
+        e.path, e.stage, e.started = path, (1 if f["mode"] == "nested" else 2), True
         self.queue.append(e)
-        if sum(map(ord, str(path))) % 2 == 0:   # deterministic mix: some resolvers are coroutines
-            async def coro(fut=e.fut):
-                return await fut
+        if self.all_gated or sum(map(ord, str(path))) % 2 == 0:
+            # a GENUINE coroutine resolver: its body only starts when the event loop runs it, and then waits on a gate the
+            # harness releases in the scheduled order. The task is outstanding from the invocation on (queue = call order):
+            # siblings are gathered concurrently, so every invoked coroutine must have STARTED at the next quiescent point.
+            e.fut, e.started = None, False
+
+            async def coro(e=e):
+                e.started = True
+                e.fut = self.loop.create_future()
+                return await e.fut
             return coro()
+        e.fut = self.loop.create_future()
         return e.fut
 
     def complete(self, idx):
-        e = self.queue.pop(idx)
+        e = self.queue[idx]
+        if not e.started:
+            # the resolver whose result should become available next has not even started: a later sibling is not run
+            # until earlier ones finish - this completion order can never happen / the request would hang
+            self.stuck = list(e.path)
+            return False
+        self.queue.pop(idx)
         if e.stage == 1:
             e2 = _Entry()
             e2.fut = self.loop.create_future()
-            e2.path, e2.stage = e.path, 2
+            e2.path, e2.stage, e2.started = e.path, 2, True
             self.queue.append(e2)
             e.fut.set_result(e2.fut)
         else:
@@ -767,6 +792,7 @@ class AsyncWorld(World):
             else:
                 e.fut.set_result(r)
         drain(self.loop)
+        return True
 
 
 def drain(loop, limit=100000):
@@ -901,7 +927,9 @@ def run_asyncio(case, schedule):
     from py_gql.execution import Executor
     from py_gql.execution.runtime import AsyncIORuntime
     loop = private_loop()
-    w = AsyncWorld(case, loop)
+    # resolver style: per case either a mix of returned futures and genuine coroutines, or ALL genuine gated coroutines
+    all_gated = sum(map(ord, json.dumps(case, sort_keys=True))) % 2 == 0
+    w = AsyncWorld(case, loop, all_gated=all_gated)
     schema, doc = prepared(case)
     rt = AsyncIORuntime(loop=loop, execute_blocking_functions_in_thread=False)
     steps = 0
@@ -921,7 +949,10 @@ def run_asyncio(case, schedule):
             while not task.done() and w.queue:
                 w.sizes.append(len(w.queue))
                 w.choices.append(pick(schedule, steps, len(w.queue)))
-                w.complete(w.choices[-1])
+                if not w.complete(w.choices[-1]):
+                    o = obs_of_result(w, status="pending", steps=steps)
+                    o["stuck"] = w.stuck
+                    return o
                 steps += 1
             if not task.done():
                 return obs_of_result(w, status="pending", steps=steps)
@@ -938,7 +969,7 @@ def run_asyncio(case, schedule):
                 t.cancel()
             drain(loop)
             for e in w.queue:
-                if not e.fut.done():
+                if e.fut is not None and not e.fut.done():
                     e.fut.cancel()
             drain(loop)
         except BaseException:  # noqa
